@@ -14,6 +14,44 @@ CHECKS["C04"] = ("exploration", "property-based testing with a reference wire pa
 CHECKS["C05"] = ("exploration", "property-based testing against a nondeterministic reference acceptor for packet shapes (proptest)",
          "Generated satisfiable schemes and single-writer call sequences with payload sizes around the range bounds; each packet's logged write lengths must be explained by the reference acceptor for its line; preamble padding and server-side no-padding checked in separate families. Sampling.",
          "trusts the reference acceptor (DESIGN Appendix A.1); a packet = the transport writes logged during one API call of a single writer", "DESIGN.md §3 C05")
+
+def _c(i, level, tech, text, note):
+    CHECKS[i] = (level, tech, text, note, f"DESIGN.md §3 {i}")
+
+_c("C01", "exploration", "property-based testing (proptest) on real sessions over a harness-owned in-memory transport: position-keyed round trip, prefix invariant, virtual-time watchdog",
+   "1-4 streams between a real client and a real server session; generated chunk sizes around the 16-bit boundary, fragmentation, capacity, padding scheme, write/read API, forced pre-emptions; every read is checked against position-keyed content, completion under a one-hour virtual watchdog. Sampling.",
+   "trusts tokio's paused clock and current-thread scheduler and the harness pipe; the server session is wired as handle_connection wires it")
+_c("C02", "exploration", "model-based property testing (proptest): generated frame histories from a scripted reference peer vs an id->instance model; instance-keyed payloads",
+   "Generated SYN/PSH/FIN/SYNACK histories over a small id pool (stray, stale, duplicate, reused ids) against a real session in either role, plus 2-8 concurrent streams between two real sessions; every byte is keyed by the stream instance it belongs to. Sampling.",
+   "trusts the reference codec and the instance model; frames still in flight when an id is opened are not counted as stray (they are let to be processed first)")
+_c("C06", "exploration", "property-based testing (proptest) of authenticate_client over a fragmenting reader with exhaustive small grids (256 bit flips, 32 prefixes, every truncation length)",
+   "iff-predicate on acceptance, exact consumed-bytes count for every declared padding length (all 65536 in thorough), termination on EOF. Function level; the end-to-end negative (no stream, no dial, no reply) is part of the Lab-S families when built.",
+   "trusts sha2 and the harness pipe; end-to-end server glue not covered yet")
+_c("C08", "exploration", "property-based testing (proptest): scripted reference peer sends data+FIN back-to-back to a real session; history invariants (EOF after data, reverse direction alive, state released)",
+   "Generated per-stream frame lists followed by FIN in one transport write with generated fragmentation, late/early readers with tiny buffers, reverse traffic before/after the FIN, siblings; both roles. Sampling. Covers received FINs; what the forwarding loops send end-to-end is judged in the Lab-S family when built.",
+   "trusts reference codec, H4 table sizes, paused clock")
+_c("C09", "fault_enumeration", "fault enumeration over byte offsets of a recorded fault-free run + property-based sampling of scenario x cause x position x schedule (proptest), virtual-time watchdog",
+   "Each cause (peer EOF, three read errors, write error at byte k, flush error, Alert, liveness timeout, owner close, hanging shutdown) is injected at offsets enumerated from the fault-free recording of the same scenario, in both roles, with blocked readers, pending opens and queued writers; release invariants judged after one virtual hour.",
+   "blocks forever = not completed after one virtual hour (documented bounds <= 60 s); the session's task-exit is judged only when the peer can observe the close")
+_c("C10", "exploration", "property-based testing (proptest) in virtual time: real Client::create_proxy_stream on an in-memory pooled session vs a reference verdict function of the generated answer timeline",
+   "1-6 racing opens, answers (ok / error text / none) at 0, 1 ms, 29.999 s, 30 s, 30.001 s, duplicated, stray, cross-addressed, session death during the wait. Sampling. Front-end replies and dial-before-SYNACK are judged in Lab-S families when built.",
+   "an answer exactly at the 30 s deadline may go either way; H3 gives access to the pool")
+_c("C11", "exploration", "schedule exploration by property-based testing (proptest): generated yield counts at instrumented points + spawn order + transport back-pressure; invariants over the reference-parsed wire vs submission logs",
+   "2-5 writer tasks on one fresh session doing what real callers do; wire must parse, equal the submitted multiset, keep per-task FIFO, start with the settings frame and keep SYN before PSH. Sampling of schedules at hook points only.",
+   "schedules are explored at H1 points, transport Pendings and spawn order on a single-threaded runtime; data races below the await level are out of reach")
+_c("C12", "exploration", "model-based property testing (proptest) in virtual time: generated pool histories vs a validity predicate evaluated around every reaper tick",
+   "Add/Get/Kill/Advance/Cleanup histories on the real SessionPool with in-memory sessions; predicate: never a closed session from Get, only expired sessions reaped, never below min idle, at most min idle expired survivors, idle_count agrees. Pool level only so far (the client-level in-use check is a Lab-S family).",
+   "which survivor is kept is left open; exact-boundary ages may go either way")
+_c("C14", "exploration", "property-based testing (proptest) in virtual time over an (interval, timeout) grid x peer behaviours vs a reference spec of allowed close instants",
+   "Real client session with heartbeat config against the real server session (delayed pipes) or a scripted peer that falls silent at generated instants, with/without traffic and send-buffer exhaustion; safe/detect/answer clauses on sampled is_closed.",
+   "is_closed sampled every 100 ms virtual; 150 ms slack on the detect bound")
+_c("C17", "exploration", "property-based differential testing (proptest) of the request parser/rewriter against a reference HTTP reading; grammar-based request generator",
+   "Generated well-formed proxy requests (all target forms, IPv6, ports, header sets up to ~64 KiB, Host in any case/position, body prefix) through the private parse+rewrite functions (H6). Pure level; listener, CONNECT reply order and early data are judged in the Lab-S family when built.",
+   "generator restricted to what senders produce (lower-case scheme, no userinfo, UTF-8); reference per RFC 7230 §5.3/5.4")
+_c("C18", "fault_enumeration", "enumeration of on-disk fault states (every truncation prefix, missing/garbled/mismatched/expired files) + property-based reload histories (proptest) vs a last-good-pair model, with real in-memory TLS handshakes",
+   "After every step the leaf certificate presented in a real handshake (signature verified), cert info and counters must match the last pair whose reload succeeded; old connections keep working.",
+   "prefixes ending inside the final PEM line may load or not; watcher/debounce not driven")
+
 NOT_YET = {}
 
 def main():
